@@ -26,9 +26,23 @@ def findings():
                                                     f["what_failed"].replace("|", "/").replace("\n", " ")[:420]))
     return "\n".join(rows)
 
+def status():
+    man = json.load(open(os.path.join(V, "MANIFEST.json")))
+    rows = ["| Property | Theorems audited (obligations = discharged) | Correspondence cases (last run) | Distinct non-trivial | Tier, seed, wall time of that run | Technique |", "|---|---|---|---|---|---|"]
+    for c in man["checks"]:
+        pid = c["property_id"]
+        try:
+            e = json.load(open(os.path.join(V, "evidence", pid + ".json")))
+            cov = e["coverage"]
+            rows.append("| %s | %s = %s | %s | %s | %s, seed %s, %.0f s | %s |" % (pid, cov.get("obligations"), cov.get("discharged"), cov.get("evaluations"),
+                        cov.get("distinct_nontrivial"), e["tier"], e["seed"], e["wall_s"], c.get("technique", "")[:160]))
+        except Exception as ex:
+            rows.append("| %s | (no evidence file: %s) | | | | |" % (pid, ex))
+    return "\n".join(rows)
+
 p = os.path.join(V, "DESIGN.md")
 s = open(p).read()
-for tag, fn in (("SEEDED", seeded), ("FINDINGS", findings)):
+for tag, fn in (("SEEDED", seeded), ("FINDINGS", findings), ("STATUS", status)):
     b, e = "<!-- BEGIN %s -->" % tag, "<!-- END %s -->" % tag
     if b in s:
         s = s[:s.index(b) + len(b)] + "\n" + fn() + "\n" + s[s.index(e):]
